@@ -145,6 +145,11 @@ pub enum Surgery {
     /// > 0) through that many levels of forwarding subroutines. The font stays well-formed and
     /// draws the same outlines; real CFF2 fonts are nearly always subroutinised.
     InstallCff2Subrs { glyphs: Vec<u16>, nest: u8 },
+    /// TrueType variable font: install a `cvar` table (no corpus font has one) of 1-3 tuple
+    /// variations over the font's axes - embedded peak tuples, optionally an intermediate region,
+    /// shared / private / "all" point numbers, byte or word or zero delta runs - and a `cvt `
+    /// table of `num_cvts` values if the font has none.
+    InstallCvar { num_cvts: u16, variant: u64 },
     /// Re-pack `hmtx` with only `num_h_metrics` long metrics (glyphs after that take the last
     /// advance and keep their side bearing) and update `hhea`. Every corpus CFF2 font and most
     /// others have numberOfHMetrics == numGlyphs, which hides the compact form from the writers.
